@@ -115,8 +115,20 @@ class _SubstNames(ast.NodeTransformer):
 
 
 # ---------------------------------------------------------------------------
+RANGES = [0]     # > 0: constant range(a, b) loops up to that size unroll too
+
+
 def _rows(it, defs, fn):
     """List of element expressions of a constant iterable, or None."""
+    if RANGES[0] and isinstance(it, ast.Call) and isinstance(
+            it.func, ast.Name) and it.func.id == "range" and \
+            not it.keywords and 1 <= len(it.args) <= 2 and all(
+                isinstance(a, ast.Constant) and type(a.value) is int
+                for a in it.args):
+        lo = it.args[0].value if len(it.args) == 2 else 0
+        hi = it.args[-1].value
+        if 0 <= hi - lo <= RANGES[0]:
+            return [ast.Constant(k) for k in range(lo, hi)]
     if isinstance(it, (ast.Tuple, ast.List)) and not any(
             isinstance(e, ast.Starred) for e in it.elts):
         return list(it.elts)
@@ -643,14 +655,35 @@ def unroll_any_all(fn):
     return cnt[0]
 
 
-def detable(fn):
-    """All of the above on a copy of fn; returns (fn, what was done)."""
+def detable(fn, ranges=0):
+    """All of the above on a copy of fn; returns (fn, what was done).
+    ranges > 0 also unrolls `for i in range(<const>, <const>)` loops of at
+    most that many iterations."""
     fn = acopy(fn)
     info = {}
+    saved = RANGES[0]
+    RANGES[0] = ranges
+    try:
+        return _detable(fn, info)
+    finally:
+        RANGES[0] = saved
+
+
+def _detable(fn, info):
     info["kwargs"] = expand_star_kwargs(fn)
     info["anyall"] = unroll_any_all(fn)
+    info["comps"] = unroll_collection_comps(fn) if RANGES[0] else 0
     fn, info["loops"] = unroll_const_loops(fn)
-    if info["loops"] or info["anyall"]:
+    # loops nested in unrolled ones (their tables are constants only now)
+    for _ in range(3):
+        if not info["loops"]:
+            break
+        fold_constants(fn)
+        fn, more = unroll_const_loops(fn)
+        if not more:
+            break
+        info["loops"] += more
+    if info["loops"] or info["anyall"] or info["comps"]:
         fold_constants(fn)
     info["lists"] = scalarise_lists(fn) if info["loops"] else 0
     ast.fix_missing_locations(fn)
@@ -877,3 +910,78 @@ def class_table_resolver(world, cls, modname):
         except Exception:
             return False
     return resolve, nonnull
+
+
+def unroll_collection_comps(fn):
+    """`T = {E for x in ROWS if C}` (set / list comprehension over a constant
+    table or, with RANGES, a constant range) as the accumulation it
+    abbreviates: `T = set(); if C[x:=r]: T.add(E[x:=r]) ...` - for
+    assignments to a plain name and for returns.  Returns the count."""
+    defs = _single_defs(fn)
+    cnt = [0]
+
+    def expand(comp, acc):
+        if len(comp.generators) != 1:
+            return None
+        g = comp.generators[0]
+        if g.is_async:
+            return None
+        rows = _rows(g.iter, defs, fn)
+        if rows is None or len(rows) > MAX_ROWS:
+            return None
+        out = []
+        meth = "add" if isinstance(comp, ast.SetComp) else "append"
+        for elt in rows:
+            env, pre = {}, []
+            if not _bind(g.target, elt, env, pre) or pre:
+                return None
+            sub = _SubstNames(env)
+            call = ast.Expr(ast.Call(ast.Attribute(
+                ast.Name(acc, ast.Load()), meth, ast.Load()),
+                [sub.visit(acopy(comp.elt))], []))
+            if g.ifs:
+                test = sub.visit(acopy(g.ifs[0])) if len(g.ifs) == 1 else \
+                    ast.BoolOp(ast.And(), [sub.visit(acopy(t))
+                                           for t in g.ifs])
+                out.append(ast.If(test, [call], []))
+            else:
+                out.append(call)
+        return out
+
+    def block(stmts):
+        out = []
+        for s in stmts:
+            for fld in ("body", "orelse", "finalbody"):
+                sub = getattr(s, fld, None)
+                if isinstance(sub, list) and sub and isinstance(
+                        sub[0], ast.stmt) and not isinstance(
+                            s, (ast.FunctionDef, ast.AsyncFunctionDef,
+                                ast.ClassDef)):
+                    setattr(s, fld, block(sub))
+            v = getattr(s, "value", None)
+            if isinstance(s, (ast.Assign, ast.Return)) and isinstance(
+                    v, (ast.SetComp, ast.ListComp)) and (
+                        isinstance(s, ast.Return) or (
+                            len(s.targets) == 1 and isinstance(
+                                s.targets[0], ast.Name))):
+                cnt[0] += 1
+                acc = s.targets[0].id if isinstance(s, ast.Assign) else \
+                    "__comp_%d" % cnt[0]
+                body = expand(v, acc)
+                if body is not None:
+                    init = ast.Assign([ast.Name(acc, ast.Store())], ast.Call(
+                        ast.Name("set" if isinstance(v, ast.SetComp)
+                                 else "list", ast.Load()), [], []))
+                    new = [init] + body
+                    if isinstance(s, ast.Return):
+                        new.append(ast.Return(ast.Name(acc, ast.Load())))
+                    for x in new:
+                        ast.copy_location(x, s)
+                        ast.fix_missing_locations(x)
+                    out += new
+                    continue
+                cnt[0] -= 1
+            out.append(s)
+        return out
+    fn.body = block(fn.body)
+    return cnt[0]
